@@ -138,6 +138,27 @@ func scaleOps(ops []wop, unit int64) {
 	}
 }
 
+// shiftOps moves a (scaled) history to a present-day epoch: every timestamp gets the same offset, a multiple of
+// `grid` (the scaled window size or slide, so rows on an interval boundary stay on one) close to two hours before the
+// harness started. Carried as float64 milliseconds / microseconds / seconds such a timestamp is still exact, but its
+// nanosecond value is above 2^53: a conversion that multiplies in floating point rounds it.
+func shiftOps(ops []wop, base int64) {
+	for i := range ops {
+		if ops[i].kind == 'A' {
+			ops[i].ts += base
+		}
+		shiftOps(ops[i].pre, base)
+		for _, l := range ops[i].inj {
+			shiftOps(l, base)
+		}
+	}
+}
+
+func epochBase(grid int64) int64 {
+	b := harnessBase - int64(2*time.Hour)
+	return b / grid * grid
+}
+
 func mkWinRow(o wop, keyed bool) map[string]any {
 	m := map[string]any{"id": o.id}
 	if o.kind == 'A' {
